@@ -5,6 +5,7 @@ import Psa.RegistrySpec
 import Psa.AdmitIO
 import Psa.StdEval
 import Psa.Webhook
+import Psa.ConfigIO
 import Psa.Generated.Tables
 /-! psa-driver: one JSON object per input line, one JSON object per output line. -/
 open Lean PSA PSA.IO
@@ -69,6 +70,7 @@ def handle (j : Json) : R Json := do
     let st := Webhook.classify Generated.maxRequestSize (boolD j "empty") (← natOf (← fld j "size")) (strD j "contentType")
       (boolD j "decodes") (boolD j "v1review") (boolD j "hasRequest")
     return Json.mkObj [("status", Json.num (st : JsonNumber))]
+  | "loadConfig" => loadConfigOp j
   | "registry" =>
     let cs ← arrOf regCheck (fldD j "checks")
     let valid := validateChecks cs
